@@ -67,6 +67,11 @@ class NetCheck(Check):
             elif got in ("crash", "host-panic"):
                 # what was delivered before the failure is still judged
                 problems = nets.check_history(result["stdout"], ir, got)
+                panic = result.get("panic") or {}
+                if panic.get("kind") in ("corrupt_header", "crash"):
+                    # freed memory reached through a channel buffer, a parked sender or a received value
+                    problems.append(("a buffered or received value was not intact (freed or corrupted memory reached through a channel)",
+                                     core.host_failure(result)))
         else:
             problems = nets.check_progress(result, ir, got, allowed)
         for problem in core.memory_failure(result):
